@@ -325,9 +325,26 @@ def load():
         for n, o in sorted(vars(m).items()):
             if inspect.isclass(o) and issubclass(o, ExactSolver) and o is not ExactSolver and o.__module__ == m.__name__:
                 CENSUS[o.__module__ + "." + n] = o
+    _define_probe(ExactSolver)
     install_seams()
     load.import_failures = failed
     _loaded = True
+
+
+def _define_probe(ExactSolver):
+    """A two-parameter solver defined by the harness: exercises the base-class parameter check
+    (base.py ExactSolver.__init__) with a parameter that has no class-level default."""
+    from exactpack.base import ExactSolution
+
+    class ProbeSolver(ExactSolver):
+        """Harness probe solver."""
+        parameters = {"a": "a parameter with a default", "b": "a parameter without a default"}
+        a = 1.5
+
+        def _run(self, r, t):
+            return ExactSolution([r, r * self.a + self.b * t], names=["position", "value"], jumps=[])
+    ProbeSolver.__module__ = "verif.probe"
+    CENSUS["verif.probe.ProbeSolver"] = ProbeSolver
 
 
 load.import_failures = []
